@@ -11,5 +11,5 @@ CONFIG = dict(
     rule=("Case = scenario + order + cache config. Non-trivial = a block whose Atropos sees at least one forker while another validator "
           "that forked somewhere in the DAG is not (yet) visible as forker from it; distinct by scenario hash."),
     assumptions=["the Atropos is taken from the implementation; only the cheater list is judged here (Atropos choice is C10's subject)"],
-    units=[dict(test="TestC03Cheaters", quick=800, thorough=144000, shards=16)],
+    units=[dict(test="TestC03Cheaters", quick=3000, thorough=144000, shards=16)],
 )
